@@ -27,8 +27,8 @@ PROPERTY = "C02"
 TITLE = "A checked call is accepted iff one consistent axis assignment exists"
 
 STRINGS = ["a b", "b a", "#a b", "a #b", "*v a", "a *v", "*#v", "*#v a", "... a", "a+1", "a b+1",
-           "2 a", "_ a", "", "*v", "#a", "a", "b", "a a", "*#v b", "#a #b"]
-EXPR = {"a+1": "a", "a b+1": "b"}  # string -> name that must be bound by an earlier parameter
+           "2 a", "_ a", "", "*v", "#a", "a", "b", "a a", "*#v b", "#a #b", "#a+1", "b #a+b"]
+EXPR = {"a+1": "a", "a b+1": "b", "#a+1": "a", "b #a+b": "a"}  # string -> name that must be bound by an earlier parameter
 BINDS = {"a": ["a b", "b a", "a #b", "*v a", "a *v", "... a", "2 a", "_ a", "a", "a a"],
          "b": ["a b", "b a", "#a b", "b", "*#v b"]}
 
@@ -125,6 +125,10 @@ def scenario(inst, V):
     if ret is None:
         variants.append(("typeguard", "dataclass", ident, "pos"))
         variants.append(("beartype", "dataclass", inst["perm"], "kw"))
+    if k >= 2:
+        # the last parameter declared as annotated *args (receiving exactly one array)
+        variants.append(("typeguard", "varargs", ident, "pos"))
+        variants.append(("beartype", "varargs", ident, "pos"))
     variants.append(("typeguard", "function-str", ident, "pos"))
     variants.append(("beartype", "function-str", ident, "kw"))
     verdicts = []
